@@ -11,7 +11,7 @@ static const int SIGS[3] = { SIGUSR1, SIGUSR2, 34 /* SIGRTMIN */ };
 static const m_src_thresh_t THR[3] = { { 0, 1.0 }, { 5, 0 }, { 5, 1.0 } };
 static int task_fn(void *up) { (void)up; return 42; }
 static int src_call(m_mod_t *h, int kind, int key, int reg, int flags, const void *up) {
-    m_src_flags fl = ((flags & 1) ? M_SRC_FD_AUTOCLOSE : 0) | ((flags & 2) ? M_SRC_ONESHOT : 0) | ((flags & 4) ? M_SRC_DUP : 0);
+    m_src_flags fl = ((flags & 1) ? M_SRC_FD_AUTOCLOSE : 0) | ((flags & 2) ? M_SRC_ONESHOT : 0) | ((flags & 4) ? M_SRC_DUP : 0) | ((flags & 8) ? M_SRC_AUTOFREE : 0);
     switch (kind) {
     case K_FD: return reg ? m_mod_src_register_fd(h, key == 15 ? -1 : UFD[key].rd, fl, up) : m_mod_src_deregister_fd(h, UFD[key].rd);
     case K_TMR: { m_src_tmr_t t = { CLOCK_MONOTONIC, key == 15 ? 0 : TPER[key] }; return reg ? m_mod_src_register_tmr(h, &t, fl, up) : m_mod_src_deregister_tmr(h, &t); }
@@ -298,11 +298,20 @@ static void do_api(op_t op) {
         if (op.c == O_SUB) {
             int prio = op.d & 3, oneshot = (op.d >> 2) & 1, upver = (op.d >> 3) & 1;
             m_src_flags fl = (prio == PR_LOW ? M_SRC_PRIO_LOW : prio == PR_HIGH ? M_SRC_PRIO_HIGH : M_SRC_PRIO_NORM) | (oneshot ? M_SRC_ONESHOT : 0);
-            rc = m_mod_ps_subscribe(h, PAT[p], fl, &UPV[s][p][upver]);
+            int dup = (op.d >> 4) & 1, af = (op.d >> 5) & 1; char *tcopy = NULL;
+            int same = af && (op.d & 64) && MD[s].sub[p].present && MD[s].sub[p].af;      /* the same user data again */
+            void *heapup = !af ? NULL : same ? UPVH[s][p] : lg_malloc(8);
+            if (af) fl |= M_SRC_AUTOFREE;
+            if (dup) { fl |= M_SRC_DUP; tcopy = strdup(PAT[p]); }              /* DUP: the caller's string may go away right after the call */
+            rc = m_mod_ps_subscribe(h, dup ? tcopy : PAT[p], fl, af ? heapup : (void *)&UPV[s][p][upver]);
+            free(tcopy);
+            if (rc && heapup && !same && lg_is_live(heapup)) { lg_free(heapup); heapup = NULL; }
+            if (!rc && legal) UPVH[s][p] = heapup;
             if (!legal) { REFUSED(rc, "subscribe", mflag(s, M_MOD_DENY_SUB) ? "PM.sub" : "ST.refuse|subscribe"); break; }
             if (tb_account(s, rc, &sn, "subscribe")) break;
             if (rc) vfail("SR.set", "SR.set|sub", "subscribe(%s) by %s returned %d (a repeated subscription is updated in place)", PAT[p], MD[s].name, rc);
-            MD[s].sub[p] = (sub_t){ 1, prio, oneshot, upver }; MD[s].life |= 32;
+            if (MD[s].sub[p].present && (MD[s].sub[p].prio != prio || MD[s].sub[p].oneshot != oneshot || MD[s].sub[p].dup != dup || MD[s].sub[p].af != af)) MD[s].life |= 1024;   /* replaced, not updated in place: a different path in the library */
+            MD[s].sub[p] = (sub_t){ 1, prio, oneshot, upver, dup, af }; MD[s].life |= 32;
         } else {
             rc = m_mod_ps_unsubscribe(h, PAT[p]);
             if (legal && MD[s].sub[p].present && tb_account(s, rc, &sn, "unsubscribe")) break;
@@ -368,7 +377,15 @@ static void do_api(op_t op) {
         if (op.c == O_SRC_REG) {
             if (freei < 0) { api_depth--; return; }
             if (kind == K_FD && key != 15 && legal && idx < 0) shim_user_fd(UFD[key].rd, (flags & 5) == 1);
-            rc = src_call(h, kind, key, 1, flags, &SRCUP[s][freei]);
+            /* user data flagged auto-free: a fresh block, or - registering a present auto-free key again - the very block the present source owns */
+            int shared = (flags & 8) && idx >= 0 && (MD[s].src[idx].flags & 8);
+            void *heapup = !(flags & 8) ? NULL : shared ? SRCUPH[s][idx] : lg_malloc(8), *prevup = SRCUPH[s][freei];
+            SRCUPH[s][freei] = heapup;
+            rc = src_call(h, kind, key, 1, flags, SRCUPP(s, freei));
+            if (rc) {      /* rejected: whether the library consumed a fresh block is unspecified; a block owned by a registered source must survive (checked by audit) */
+                SRCUPH[s][freei] = prevup;
+                if (heapup && !shared && lg_is_live(heapup)) lg_free(heapup);
+            }
             if (!legal || key == 15) { REFUSED(rc, what, key == 15 ? "SR.set|bad-param" : "ST.refuse|src"); if (ON(R_SR)) for (int i = 0; i < NM; i++) audit_srclen(i, what); break; }
             if (tb_account(s, rc, &sn, what)) break;
             if (idx >= 0) { if (rc != -EEXIST) vfail("SR.set", "SR.set|dup", "%s: key already present, returned %d instead of -EEXIST", what, rc); check_unchanged(&sn, what, "SR.set|dup-effect"); if (api_depth == 1) last_refused = 1; break; }
